@@ -67,6 +67,19 @@ def run_path(hname, params, prefix, validate=False):
         rec['status'] = 'aborted'
     except Unsupported as e:
         rec.update(status='unencoded', msg=str(e)[:200])
+        # graceful degradation: the encoder cannot continue on this path (a callee without a model). Replay one
+        # representative of the path condition reached so far against the native build: not a solver verdict for the
+        # path (it stays counted as unencoded), but a violation found this way is a real, replayed counterexample.
+        if _G['native'] is not None:
+            try:
+                vals = I.model_values()
+                st, msg, role = native_replay(hname, params, vals, _G['native'])
+                rec['native_sampled'] = st
+                if st in ('violation', 'panic') and st != 'panic':
+                    rec.update(status='known' if role in _G.get('known_roles', ()) else 'violation', msg=msg + ' [found by native replay of an unencoded path]',
+                               role=role, values=vals, native=st, native_msg=msg)
+            except (Infeasible, KeyError, AssertionError, Unsupported):
+                pass
     except RecursionError:
         rec.update(status='unencoded', msg='python recursion limit')
     except Exception as e:
@@ -158,6 +171,8 @@ def explore_task(job_idx, hname, params, prefixes, max_paths, max_s, validate_ev
                 out['panics'].append(dict(msg=r['msg'], values=r.get('values'), harness=hname, params=params))
         elif st in ('unencoded', 'error'):
             out['unencoded'][r['msg']] = out['unencoded'].get(r['msg'], 0) + 1
+            if r.get('native_sampled') == 'pass':
+                out['unencoded_sampled'] = out.get('unencoded_sampled', 0) + 1
         if 'validated' in r:
             if r['validated']:
                 out['validated'] += 1
@@ -266,6 +281,7 @@ def run_jobs(jobs, init_args, nworkers=16, deadline_s=600, validate_every=25, se
                 s.panics.extend(r['panics'][:max(0, 5 - len(s.panics))])
                 for k, v in r['unencoded'].items():
                     s.unencoded[k] = s.unencoded.get(k, 0) + v
+                s.unencoded_sampled = getattr(s, 'unencoded_sampled', 0) + r.get('unencoded_sampled', 0)
                 s.samples.extend(r['samples'][:max(0, 4 - len(s.samples))])
                 s.validated += r['validated']
                 s.tv_mismatch.extend(r['tv_mismatch'])
